@@ -2,34 +2,45 @@
 
 Real Python threads run real code, but only ONE of them is ever runnable: every controlled thread
 parks at each source LINE (or bytecode INSTRUCTION) of the *watched* code objects and at every
-blocking operation of the proxied ``threading`` / ``time`` names, and a controller (the harness
-thread that called ``Run.go``) decides who moves next.
+blocking operation of the proxied ``threading`` / ``time`` names; whoever parks takes the next
+scheduling decision (it is the only thread running) and either continues itself or hands the baton
+to the chosen thread through a per-thread semaphore. The harness thread that called ``Run.go``
+just waits for the run to end.
 
 * park points: ``sys.monitoring`` tool id 4 (not DEBUGGER_ID: redun looks at that one) with LINE or
   INSTRUCTION local events on the watched code objects; the callback runs in the thread that hit
-  the event and blocks there until the controller grants it the next step.
+  the event. In INSTRUCTION mode, instructions that only touch the frame's own stack/locals are not
+  park points (parking there is equivalent to parking before the next shared access).
 * proxies (``install(run, modules)`` sets ``module.threading`` / ``module.time``): ``Thread`` (starts
-  parked, ``join``/``is_alive`` answered from harness state), ``Lock``/``RLock`` (a thread waiting for
-  a held lock is not runnable), ``Event`` (``wait(timeout)`` is a virtual-clock wait), ``time.time``
-  / ``time.sleep`` (virtual clock).
+  parked, ``join``/``is_alive``/``ident`` answered from harness state), ``Lock``/``RLock`` (a thread
+  waiting for a held lock is not runnable), ``Event`` (``wait(timeout)`` is a virtual-clock wait),
+  ``time.time`` / ``time.sleep`` (virtual clock). Nothing else of threading/time is emulated;
+  Condition/Semaphore/Timer raise HarnessError rather than block for real.
 * schedule: default = keep running the current thread until it blocks or finishes, then the
   lowest-index runnable thread; if nothing is runnable the clock jumps to the earliest deadline.
   On top of that a list of preemptions ``[step, thread_index]``: at that step run that thread
   instead.  A thread in a *timed* wait (sleep / Event.wait(timeout)) is eligible for a preemption
   too: choosing it advances the clock to its deadline ("the timeout fired now") — the relative
   speed of a timer and another thread's progress is not determined by the program.
-* one step = one grant = the chosen thread runs from its park point to its next one.
+  ``Run(relative=True)`` reads a preemption as [n-th decision point, k-th alternative] instead
+  (for generated schedules); ``run.effective`` is always the equivalent absolute schedule.
+* one step = the chosen thread runs from its park point to its next one; ``run.trace`` holds
+  (step, thread, event executed from, event parked at, state), ``run.choices`` the default and the
+  eligible threads of every step.
 * quiescence: no thread runnable and none in a timed wait (status ``done`` if all finished, else
   ``blocked``); hard caps on steps and virtual time (``step-cap`` / ``time-cap``).
 * every run ends by aborting whatever is still parked (``Abort`` is a BaseException raised at the
-  park point, one thread at a time) and joining all real threads; a thread that does not come
-  back is a HarnessError.
+  park point, one thread at a time) and waiting until every controlled thread has left its target;
+  one that does not come back is a HarnessError. The OS threads underneath are pooled workers
+  (thread creation costs milliseconds here); a worker in the pool is idle and runs nothing.
 
 ``explore`` enumerates all schedules with <= K preemptions statelessly (re-running the scenario per
-schedule); ``schedules(max_pre, horizon, nthreads)`` is the Hypothesis strategy.
+schedule); ``schedules(...)`` is the Hypothesis strategy; ``assert_deterministic`` re-runs a schedule
+and insists on identical traces.
 """
 from __future__ import annotations
 
+import atexit
 import contextlib
 import dis
 import sys
@@ -60,7 +71,7 @@ _LOCAL_OPS = frozenset("""
     JUMP_BACKWARD_NO_INTERRUPT POP_JUMP_IF_TRUE POP_JUMP_IF_FALSE POP_JUMP_IF_NONE
     POP_JUMP_IF_NOT_NONE KW_NAMES EXTENDED_ARG BUILD_LIST BUILD_TUPLE LIST_APPEND POP_EXCEPT
     PUSH_EXC_INFO RERAISE END_FOR COPY_FREE_VARS MAKE_CELL UNARY_NOT IS_OP BUILD_SLICE
-    UNPACK_SEQUENCE BUILD_MAP BUILD_CONST_KEY_MAP BUILD_STRING FORMAT_VALUE
+    UNPACK_SEQUENCE BUILD_MAP BUILD_CONST_KEY_MAP BUILD_STRING FORMAT_VALUE LOAD_GLOBAL
 """.split())
 
 
@@ -106,6 +117,9 @@ def close_pool() -> None:
         w.thread.join(JOIN_S)
 
 
+atexit.register(close_pool)
+
+
 class CThread:
     """Harness record of one controlled thread."""
 
@@ -120,6 +134,7 @@ class CThread:
         self.preemptible = True     # timed wait may be fired early by a preemption
         self.pending: tuple = ("start",)   # where it is parked = what its next step executes from
         self.error: Optional[BaseException] = None
+        self.born = 0
         self.exited = _th.Semaphore(0)      # released when the real thread left the target
         self.worker: Optional[_Worker] = None
         self.ident: Optional[int] = None
@@ -133,11 +148,12 @@ class Run:
 
     def __init__(self, schedule: Iterable[Sequence[int]] = (), max_steps: int = 5000,
                  t0: float = 1000.0, max_time: Optional[float] = None, relative: bool = False):
-        # relative: the second number of a preemption selects among the eligible alternatives to
-        # the default at that step (k mod #alternatives) instead of naming a thread index; used by
-        # generated schedules so that most drawn preemptions change something. `effective` always
-        # holds the equivalent absolute schedule.
+        # relative: a preemption [n, k] means "at the n-th decision point (step at which some
+        # thread other than the default is eligible) take alternative k mod #alternatives" instead
+        # of [step, thread index]; used by generated schedules so that nearly every drawn
+        # preemption changes something. `effective` always holds the equivalent absolute schedule.
         self.relative = relative
+        self.ndecisions = 0
         self.schedule = [[int(s), int(t)] for s, t in schedule]
         self.pre = {s: t for s, t in self.schedule}
         self.max_steps = max_steps
@@ -221,6 +237,7 @@ class Run:
     # ------------------------------------------------------------------ controller side
     def spawn(self, fn: Callable[[], None], name: str) -> CThread:
         t = CThread(self, len(self.threads), name, fn)
+        t.born = self.step          # step during which it was started
         self.threads.append(t)
         w = t.worker = _get_worker()
         t.ident = w.thread.ident
@@ -328,16 +345,19 @@ class Run:
         elig.update(t.idx for t in timed if t.preemptible)
         elig.add(default.idx)
         chosen = default
-        p = self.pre.get(self.step)
-        if p is not None:
-            if self.relative:
-                alts = sorted(elig - {default.idx})
-                if alts:
+        if self.relative:
+            if len(elig) > 1:
+                p = self.pre.get(self.ndecisions)
+                self.ndecisions += 1
+                if p is not None:
+                    alts = sorted(elig - {default.idx})
                     chosen = self.threads[alts[p % len(alts)]]
-            elif p != default.idx and p in elig:
+        else:
+            p = self.pre.get(self.step)
+            if p is not None and p != default.idx and p in elig:
                 chosen = self.threads[p]
-            if chosen is not default:
-                self.effective.append([self.step, chosen.idx])
+        if chosen is not default:
+            self.effective.append([self.step, chosen.idx])
         if chosen not in runnable:
             if self.max_time is not None and chosen.deadline > self.max_time:
                 self.status = "time-cap"
@@ -549,7 +569,7 @@ def install(run: Run, modules: Sequence[Any]):
 # -------------------------------------------------------------------------------------- monitoring
 _mon = sys.monitoring
 _watched: dict = {}          # code -> "line" | "instr"
-_points: dict = {}           # code -> {offset: (opname, argrepr, line)} for instr mode
+_points: dict = {}           # code -> {offset: (opname, argval, line)} for instr mode
 _tool_ready = False
 
 
@@ -613,7 +633,7 @@ def watch(funcs: Iterable[Any], instr: bool = False, skip_local: bool = True) ->
             for ins in dis.get_instructions(code):
                 if skip_local and ins.opname in _LOCAL_OPS:
                     continue
-                pts[ins.offset] = (ins.opname, ins.argrepr, ins.positions.lineno if ins.positions else None)
+                pts[ins.offset] = (ins.opname, ins.argval, ins.positions.lineno if ins.positions else None)
             _points[code] = pts
             _mon.set_local_events(TOOL_ID, code, _mon.events.INSTRUCTION)
         else:
@@ -622,7 +642,7 @@ def watch(funcs: Iterable[Any], instr: bool = False, skip_local: bool = True) ->
 
 
 def instr_info(func_or_code) -> dict:
-    """{offset: (opname, argrepr, line)} of the park points of an instruction-watched function."""
+    """{offset: (opname, argval, line)} of the park points of an instruction-watched function."""
     code = func_or_code if hasattr(func_or_code, "co_code") else _code_of(func_or_code)
     return _points.get(code, {})
 
@@ -677,13 +697,14 @@ def explore(run_fn: Callable[[list], Run], max_pre: int, roots: Optional[list] =
     return n
 
 
-def schedules(max_pre: int, horizon: int, nthreads: int):
-    """Hypothesis strategy: up to max_pre preemptions [step, thread] with distinct steps."""
+def schedules(max_pre: int, horizon: int, nthreads: int, min_pre: int = 0):
+    """Hypothesis strategy: min_pre..max_pre preemptions [step, thread] with distinct steps (for
+    Run(relative=True): [decision point, alternative])."""
     from hypothesis import strategies as st
 
     return st.lists(
         st.tuples(st.integers(0, max(0, horizon - 1)), st.integers(0, max(0, nthreads - 1))),
-        max_size=max_pre, unique_by=lambda p: p[0],
+        min_size=min_pre, max_size=max_pre, unique_by=lambda p: p[0],
     ).map(lambda ps: [list(p) for p in sorted(ps)])
 
 
